@@ -89,6 +89,14 @@ RAISING = [
 ]
 
 
+# every helper function / typed matcher at least once per fresh-process batch
+COLD_FIXED = [
+    'field_contains(r, ["s", "t"], ["hello"])', 'field_equals(r, ["s"], ["hello", "x"])', 'field_regex(r, ["s", "t"], "^[Hh]ello")',
+    'lower(r.s) == "hello"', 'upper(r.t) == "HELLO"', 'Type.string == "Hello"', 'name(r) == "sel/small"', '"sel/other" in names(r)',
+    'has_field(r, "k")', 'any(x == "Hello" for x in r.l)', 'r.n > 2',
+]
+
+
 # ---- match recorder ----------------------------------------------------------------------------------
 class Recorder:
     """pre/post hooks on Selector.match / CompiledSelector.match: which record was being matched when match raised."""
@@ -628,8 +636,8 @@ def run_cold(ctx, case):
     hidden state a selector, a helper or a module keeps starts empty, so 'which records were matched before' really differs."""
     rng = random.Random(case["es"])
     pool = build_pool(random.Random(case["pool"]))
-    jobs = []
-    while len(jobs) < case["n"]:
+    jobs = [[engine, e] for e in COLD_FIXED for engine in ("interpreted", "compiled")]
+    while len(jobs) < case["n"] + 2 * len(COLD_FIXED):
         ek, expr = pick_expression(rng.randrange(2**40), pool)
         if ek == "raising" and rng.random() < 0.5:
             continue
